@@ -19,6 +19,7 @@ ENGINES = {
     "C15": ("eng_msg", "run"),
     "C16": ("eng_range", "run"),
     "C17": ("eng_text", "run"),
+    "C18": ("eng_hub", "run"),
 }
 
 
